@@ -2,6 +2,8 @@
 import numpy as np
 from hypothesis import strategies as st
 
+from vk import gen
+
 ID = "C11"
 LEVEL = "exploration"
 RULE = (
@@ -59,7 +61,7 @@ def build(case):
         else:
             levels = [0.0] * c["n"]
         n = len(levels)
-        pos = int(rng.integers(0, 100000))
+        pos = int(rng.integers(0, 100000)) + gen.offset_for(case)
         gap_at = None
         if c["kind"] == "flat" and c.get("gap"):
             gap_at = max(100, min(n - 100, int(round(n * c["gap_frac"]))))
